@@ -443,3 +443,117 @@ def pdf_encrypt(plain: bytes, user_pw: str, owner_pw, algorithm: str, doc_id: by
     bio = io.BytesIO()
     w.write(bio)
     return bio.getvalue()
+
+
+# ----------------------------------------------------------------------------- PDF: crypt-filter dictionaries of every legal shape
+# PDF 32000-1 §7.6.5: for /V 4 and 5 the encryption dictionary names the crypt filters for streams (/StmF), strings (/StrF)
+# and embedded files (/EFF, default = /StmF); each name is either the predefined /Identity (also the default when the key
+# is absent) or a key of the /CF dictionary whose value carries the method (/CFM: /V2 = RC4, /AESV2, /AESV3).  The NAME of a
+# filter in /CF is free (/StdCF is only what the usual writers call it); /CF may hold filters nobody refers to.
+PDF_CFM = {"rc4": "/V2", "aes": None, "identity": "/Identity"}      # "aes" = /AESV2 for V4, /AESV3 for V5
+
+
+def pdf_plain_with_strings(texts, doc_id: bytes | None = None) -> bytes:
+    """like pdf_plain, but every page dictionary carries a string (/LastModified), so that the STRING crypt filter is
+    exercised whenever the page is fetched (pypdf decrypts the strings of a dictionary when it resolves the object)"""
+    from pypdf import PdfReader, PdfWriter
+    from pypdf.generic import NameObject, TextStringObject
+
+    r = PdfReader(io.BytesIO(pdf_plain(texts, doc_id)))
+    w = PdfWriter()
+    _set_doc_id(w, doc_id)
+    for p in r.pages:
+        q = w.add_page(p)
+        q[NameObject("/LastModified")] = TextStringObject("D:20240101120000Z")
+    bio = io.BytesIO()
+    w.write(bio)
+    return bio.getvalue()
+
+
+def pdf_encrypt_shaped(plain: bytes, user_pw: str, owner_pw, algorithm: str, shape: dict, doc_id: bytes | None = None) -> bytes:
+    """encrypt `plain` with pypdf's primitives, but with the crypt-filter layout given by `shape`:
+
+      cf        [(filter name without '/', method)]   entries of /CF in file order; method in "rc4" | "aes" | "identity-cfm"
+      stmf/strf/eff   filter name | "Identity" | None (key absent; /EFF absent = /StmF)
+      indirect_cf     write /CF as an indirect object
+      stray_cf        (V < 4 only) add a /CF dictionary although the handler version does not use crypt filters
+
+    algorithm: "AES-128" (V4/R4; "rc4" entries = RC4-128 under V4), "AES-256-R5", "AES-256" (V5), "RC4-40"/"RC4-128" (V1/V2).
+    The data is encrypted with exactly the methods the dictionary declares (stream / string method resolved through the
+    names), so a conforming reader that resolves the names decrypts it."""
+    from pypdf import PdfReader, PdfWriter
+    from pypdf.generic import DictionaryObject, NameObject, NumberObject
+
+    r = PdfReader(io.BytesIO(plain))
+    w = PdfWriter()
+    _set_doc_id(w, doc_id)
+    for p in r.pages:
+        w.add_page(p)
+    w.encrypt(user_password=user_pw, owner_password=owner_pw, algorithm=algorithm)
+    enc, entry = w._encryption, w._encrypt_entry
+    v = int(entry["/V"])
+    aes_cfm = "/AESV3" if v >= 5 else "/AESV2"
+
+    def cfm(method):
+        return {"rc4": "/V2", "aes": aes_cfm}[method]
+
+    def filter_dict(method):
+        d = DictionaryObject()
+        d[NameObject("/AuthEvent")] = NameObject("/DocOpen")
+        d[NameObject("/CFM")] = NameObject(cfm(method))
+        d[NameObject("/Length")] = NumberObject(int(entry["/Length"]) // 8)
+        return d
+
+    if v >= 4:
+        table = dict()
+        cf = DictionaryObject()
+        for name, method in shape["cf"]:
+            cf[NameObject("/" + name)] = filter_dict(method)
+            table.setdefault(name, method)
+
+        def resolve(name, default):
+            if name is None:
+                return default
+            if name == "Identity":
+                return "/Identity"
+            return cfm(table[name])
+
+        enc.StmF = resolve(shape.get("stmf"), "/Identity")
+        enc.StrF = resolve(shape.get("strf"), "/Identity")
+        enc.EFF = resolve(shape.get("eff"), enc.StmF)
+        for k in ("/CF", "/StmF", "/StrF", "/EFF"):
+            if k in entry:
+                del entry[k]
+        entry[NameObject("/CF")] = w._add_object(cf) if shape.get("indirect_cf") else cf
+        for k, key in (("stmf", "/StmF"), ("strf", "/StrF"), ("eff", "/EFF")):
+            if shape.get(k) is not None:
+                entry[NameObject(key)] = NameObject("/" + shape[k])
+    elif shape.get("stray_cf"):
+        cf = DictionaryObject()
+        for name, method in shape["cf"]:
+            d = DictionaryObject()
+            d[NameObject("/CFM")] = NameObject({"rc4": "/V2", "aes": "/AESV2"}[method])
+            cf[NameObject("/" + name)] = d
+        entry[NameObject("/CF")] = cf
+    bio = io.BytesIO()
+    w.write(bio)
+    return bio.getvalue()
+
+
+def pdf_crypt_facts(data: bytes):
+    """what a third-party reader (pypdf's object parser only, no decryption) sees in the trailer's /Encrypt dictionary:
+    None = not encrypted; else {"v", "cf": [[name, cfm]], "stmf", "strf", "eff"} (names without '/', None = key absent)"""
+    from pypdf import PdfReader
+
+    r = PdfReader(io.BytesIO(data)) if not isinstance(data, PdfReader) else data
+    if "/Encrypt" not in r.trailer:
+        return None
+    e = r.trailer["/Encrypt"].get_object()
+    out = {"v": int(e.get("/V", 0)), "cf": [], "stmf": None, "strf": None, "eff": None}
+    if "/CF" in e:
+        for k, fd in e["/CF"].get_object().items():
+            out["cf"].append([str(k)[1:], str(fd.get_object().get("/CFM", "/None"))[1:]])
+    for k, key in (("stmf", "/StmF"), ("strf", "/StrF"), ("eff", "/EFF")):
+        if key in e:
+            out[k] = str(e[key])[1:]
+    return out
